@@ -501,7 +501,17 @@ Definition interp_domain (xs : list T) : res (T * T) :=
     Interpolate(x) for n = 0); Global_Minimum / Global_Maximum only scan the function values *)
 Inductive icall : Type :=
 | ILocate (x : T) | IEval (x : T) | IDeriv (x : T) (n : Z) | IIntegrate (a b : T)
-| ILocalMin (a b : T) | ILocalMax (a b : T) | IGlobal.
+| ILocalMin (a b : T) | ILocalMax (a b : T) | IGlobal | ISave (points : Z).
+(** Save_Function(filename, points): Interpolate(x) at every x of Linear_Space(domain[0], domain[1], points)
+    (Utilities.cpp: {min} for steps < 2 or min == max, otherwise min + i * step with step = (max - min) / (steps - 1.0),
+    i = 0 .. steps-1, i and steps converted from unsigned int) *)
+Definition linear_space_point (a b : T) (steps i : Z) : T :=
+  let step := ((b - a) / (nofZ Ops steps - one))%num in (a + nofZ Ops i * step)%num.
+Definition guard_save_function (xs : list T) (points : Z) : res unit :=
+  let* d := interp_domain xs in
+  let a := fst d in let b := snd d in
+  if (points <? 2) || neqb Ops a b then guard_interpolate xs a
+  else for_range 0 points (fun i => guard_interpolate xs (linear_space_point a b points i)).
 Definition guard_icall (xs : list T) (c : icall) : res unit :=
   match c with
   | ILocate x => let* _ := locate xs x in Ok tt
@@ -511,9 +521,26 @@ Definition guard_icall (xs : list T) (c : icall) : res unit :=
   | ILocalMin a b => guard_local_extremum xs a b
   | ILocalMax a b => guard_local_extremum xs a b
   | IGlobal => for_range 0 (zlen xs) (fun i => at_ (zlen xs) i)
+  | ISave points => guard_save_function xs points
   end.
 Fixpoint guard_icalls (xs : list T) (cs : list icall) : res unit :=
   match cs with [] => Ok tt | c :: r => guard_icall xs c ;; guard_icalls xs r end.
+(** what the Locate requests of such a sequence return (the interval index from which every later coefficient read is
+    made), in the order of the requests; the other requests are performed as above.  The search state of the object
+    (jLast, correlated_calls) does not appear: the hunt branch returns the index of the bisection branch (C09). *)
+Fixpoint icalls_locs (xs : list T) (cs : list icall) : res (list Z) :=
+  match cs with
+  | [] => Ok []
+  | c :: r =>
+      match c with
+      | ILocate x => let* j := locate xs x in let* l := icalls_locs xs r in Ok (j :: l)
+      | _ => guard_icall xs c ;; icalls_locs xs r
+      end
+  end.
+Definition session_locs (xs : list T) (x_dim : T) (cs : list icall) : res (list Z) :=
+  icalls_locs (scale_units x_dim xs) cs.
+Definition table_session_locs (data : list (list T)) (x_dim : T) (cs : list icall) : res (list Z) :=
+  icalls_locs (scale_units x_dim (map (fun row => nth 0 row zero) data)) cs.
 (** construction with unit arguments, then the requests; returns `domain` *)
 Definition interp_session (xs : list T) (nf : Z) (x_dim f_dim : T) (cs : list icall) : res (T * T) :=
   guard_interpolation xs nf ;;
